@@ -146,10 +146,17 @@ def names(cfg, crate, ctx, rep):
             e = core(e.fields["0"])
         alts = e.alts if isinstance(e, PhiV) else [(True, e)]
         flat = []
+        via_map = set()
         for c, x in alts:
             x0 = core(x)
             if isinstance(x0, StructV) and x0.variant == "Ok":
                 x0 = core(x0.fields["0"])
+            elif isinstance(x0, CallV) and x0.callee == "std::result::Result::map" and len(x0.args) == 2 and isinstance(core(x0.args[1]), StructV):
+                # `fallible.map(Variant)`: Ok(Variant(payload)) when the conversion succeeds, its error otherwise
+                recv_ = x0.args[0]
+                x0 = core(x0.args[1])
+                if any(r.startswith("via:") and ("try_into" in r or "try_from" in r) for r in roots(recv_)):
+                    via_map.add(id(x0))
             flat.append((c, x0))
         parse = [(cal, args, n) for cal, args, n, cond, f in I.calls
                  if cal == "parse::<std::net::IpAddr>"]
@@ -176,8 +183,8 @@ def names(cfg, crate, ctx, rep):
             ptxt = core(payload).r() if payload is not None else ""
             if ptxt == pl + "#Ok.0":
                 src_txt = "parsed address"
-            elif ptxt == elem and isinstance(payload, Via) and any(r.startswith("via:") and "try_into" in r or "try_from" in r for r in roots(payload)):
-                propagated = any(core(tv).r() == elem and "try_" in tv.r() for tv, tn, tf, tc in I.tries)
+            elif ptxt in (elem, elem + "?") and (id(h) in via_map or any(r.startswith("via:") and ("try_into" in r or "try_from" in r) for r in roots(payload))):
+                propagated = any(core(tv).r() == elem and "try_" in tv.r() for tv, tn, tf, tc in I.tries) or id(h) in via_map
                 src_txt = "validated name" + (" (error propagated)" if propagated else " (error NOT propagated)")
             else:
                 src_txt = ptxt[-60:]
